@@ -13,6 +13,9 @@ Decided:
   R02.7  a slot whose scoreboard entry is a blocking marker is offered only when part of it was released
   R02.8  a value remembered between calendar queries is keyed by the parameters it was computed from (no lossy memo key)
   R02.9  available() answers True only when the slot-table entry is known not to be a blocking marker (leave / off-shift)
+  R02.10 project-level `workinghours` accepted by the grammar reach the default calendar (known finding F46)
+  R02.11 the duration of a blocking `booking` is converted for every unit of the grammar (no silent default)
+  R02.12 leaves declared inside a shift reach the model and are consulted by the shift branch of onShift
   R02.6  local time: weekday / minute are taken after the time-zone conversion
 Not decided: minute-exact containment when shift edges are not slot aligned, DST arithmetic.
 """
@@ -322,6 +325,73 @@ def run(ctx: Ctx):
                    key=key_of("R02.6", wh, n))
     # ---------------------------------------------------------------- R02.8 memo-key soundness in the calendar decision
     memo_rule(ctx, "R02.8")
+    # ---------------------------------------------------------------- R02.10 project-level working hours reach the default calendar
+    # the grammar accepts `workinghours` as a project attribute and the builder stores it; the calendar used for resources
+    # without hours of their own must consult it
+    grammar = open(__import__("os").path.join(repo.root, "scriptplan", "parser", "tjp.lark")).read()
+    import re as _re
+    m_ = _re.search(r"^project_attribute:(.*?)^\S", grammar, _re.S | _re.M)
+    accepts = bool(m_ and _re.search(r"\bworkinghours\b", m_.group(1)))
+    atoms_d = full(ctx.dep.summary(dflt).ret) | full(ctx.dep.summary(repo.func("Project.isWorkingTime")).ret)
+    consults = bool({"pattr:workinghours", "str:workinghours", "field:workinghours"} & atoms_d)
+    if accepts:
+        ctx.ob("R02.10", f"{dflt.qual}: the default calendar consults the project's workinghours", dflt, consults,
+               "project-level working hours decide the default calendar" if consults else
+               "the grammar accepts `workinghours` in the project header and the builder stores it, but the default calendar is the "
+               "constant Mon-Fri 9-17: resources without hours of their own are booked outside the declared project working hours",
+               key="R02.10|Project._isDefaultWorkingTime|project workinghours")
+    else:
+        ctx.ob("R02.10", "the grammar does not accept project-level workinghours", dflt, None, "nothing to apply", info=True)
+    # ---------------------------------------------------------------- R02.11 blocking bookings: every duration unit of the grammar is converted
+    import re as _re2
+    mu = _re2.search(r"^DURATION_UNIT:\s*/\[([a-z]+)\]\+/", grammar, _re2.M)
+    if not mu:
+        raise AnchorMissing("tjp.lark: DURATION_UNIT terminal not found")
+    letters = set(mu.group(1))
+    units = {u for u in ("min", "h", "d", "w", "m", "y") if set(u) <= letters}
+    apa = repo.func("ModelBuilder._apply_property_attributes")
+    bk = [i for i in own_nodes(apa) if isinstance(i, ast.If) and norm(i.test).replace("'", '"') == 'key == "booking"']
+    if not bk:
+        raise AnchorMissing("_apply_property_attributes: booking branch not found")
+    handled, fallbacks = set(), []
+    for i in ast.walk(bk[0]):
+        if isinstance(i, ast.If) and isinstance(i.test, ast.Compare) and norm(i.test.left) == "unit" and isinstance(i.test.ops[0], ast.Eq):
+            c = i.test.comparators[0]
+            if isinstance(c, ast.Constant):
+                handled.add(c.value)
+            if i.orelse and not (len(i.orelse) == 1 and isinstance(i.orelse[0], ast.If)):
+                fallbacks.append(i.orelse)
+    silent = [f for f in fallbacks if not any(isinstance(x, ast.Raise) for st in f for x in ast.walk(st))]
+    ok = units <= handled and not silent
+    ctx.ob("R02.11", f"{apa.qual}: booking duration units handled {sorted(handled)} of {sorted(units)}", (apa, bk[0]), ok,
+           "every unit the grammar accepts is converted; an unknown unit is an error" if ok else
+           f"units {sorted(units - handled)} fall through to a default conversion: a booking of one week blocks the resource for one hour",
+           key="R02.11|_apply_property_attributes|booking units")
+    # ---------------------------------------------------------------- R02.12 leaves of a shift apply to the resources working it
+    shift_ifs = [i for i in own_nodes(onshift) if isinstance(i, ast.If) and norm(i.test) == "shift"]
+    if not shift_ifs:
+        raise AnchorMissing("ResourceScenario.onShift: shift branch not found")
+    for i in shift_ifs:
+        lv = [l for l in ast.walk(i) if isinstance(l, ast.For) and "shift.get('leaves'" in norm(l.iter).replace('"', "'")
+              and any(isinstance(x, ast.Return) and isinstance(x.value, ast.Constant) and x.value.value is False for x in ast.walk(l))]
+        # ... and before the branch answers from the shift's hours
+        rets = [x for x in ast.walk(i) if isinstance(x, ast.Return)]
+        ok = bool(lv) and all(l.lineno < min(r.lineno for r in rets if not any(r is y for y in ast.walk(l))) for l in lv)
+        ctx.ob("R02.12", f"{onshift.qual}: shift branch consults the shift's leaves", (onshift, i), ok,
+               "a slot inside a leave of the shift is off shift for everybody working that shift" if ok else
+               "the shift branch answers from the shift's working hours only: leaves declared inside the shift are ignored and its resources "
+               "are booked on the shift's holidays",
+               key="R02.12|ResourceScenario.onShift|shift leaves")
+    sa = repo.func("TJPTransformer.shift_attr")
+    keys = {const_ for r in returns(sa) if isinstance(r.value, ast.Tuple) and r.value.elts and isinstance(r.value.elts[0], ast.Constant)
+            for const_ in [r.value.elts[0].value]}
+    m2 = _re.search(r"^shift_attr:(.*?)^\S", grammar, _re.S | _re.M)
+    alts = set(_re.findall(r'"(workinghours|leaves)"', m2.group(1))) if m2 else set()
+    ok = bool(alts) and alts <= keys
+    ctx.ob("R02.12", f"{sa.qual}: grammar alternatives {sorted(alts)} -> keyed results {sorted(keys)}", sa, ok,
+           "every shift attribute the grammar accepts reaches the model builder under its key" if ok else
+           f"the transformer does not hand {sorted(alts - keys)} of a shift body to the model builder (the statement is parsed and dropped)",
+           key="R02.12|TJPTransformer.shift_attr|keys")
     # ---------------------------------------------------------------- R02.7 blocked scoreboard entries (shared with C01 R01.5)
     # a scoreboard entry that is not None (leave / vacation marker or another task) is offered only after a partial release
     from .c01 import partial_reoffer_rule
